@@ -93,6 +93,31 @@ class YTable(htables.HTable):
             yield row
 
 
+class YKey:
+    """A sort key whose comparison hands control to the scheduler."""
+    __slots__ = ('v',)
+
+    def __init__(self, v):
+        self.v = v
+
+    def __lt__(self, other):
+        yield_point()
+        return self.v < other.v
+
+    def __gt__(self, other):
+        yield_point()
+        return self.v > other.v
+
+    def __eq__(self, other):
+        return isinstance(other, YKey) and self.v == other.v
+
+    def __hash__(self):
+        return hash(self.v)
+
+    def __repr__(self):
+        return f'YKey({self.v})'
+
+
 class Sched:
     """Exactly one worker runs at a time; switches happen only at yield points."""
 
@@ -150,6 +175,7 @@ class Sched:
 
 TABLE_T = ('t', [('x', int), ('s', str)], [(1, 'a'), (2, 'b'), (3, 'a'), (4, 'c'), (2, 'a')])
 TABLE_U = ('u', [('y', int)], [(2,), (3,), (9,)])
+TABLE_O = ('o', [('x', int), ('k', YKey)], [(3, YKey(5)), (1, YKey(2)), (4, YKey(9)), (1, YKey(7)), (5, YKey(1)), (9, YKey(4))])
 
 QUERIES = [
     ("SELECT balance, vyield(1), balance WHERE account ~ 'Bank|Cash'", None),
@@ -179,6 +205,18 @@ QUERIES = [
     # decimal rounding on exact ties (the decimal context is per thread)
     ("SELECT account, round(number / 8, 2) AS r, round(2.50) AS t, round(0.125, 2) AS u, round(number) AS w WHERE vyield(1) = 1", None),
     ("SELECT x, round(x / 8, 2) AS r, round(x / 2) AS h, round(0.5) AS t, round(1.5) AS u, round(0.125, 2) AS v FROM #t", None),
+    # several BALANCES / JOURNAL statements sharing a summary function but not their clauses
+    ("BALANCES AT units WHERE account ~ 'Assets'", None),
+    ("BALANCES AT units FROM year = 2019 WHERE account ~ 'Expenses|Income'", None),
+    ("BALANCES WHERE account ~ 'Broker'", None),
+    ("BALANCES FROM month = 1", None),
+    ("JOURNAL 'Broker'", None),
+    ("JOURNAL 'Food' FROM year = 2019", None),
+    # sorting: the comparison of sort keys is a yield point (keys of a harness type)
+    ("SELECT x, k FROM #o ORDER BY k DESC", None),
+    ("SELECT k, x FROM #o ORDER BY x, k", None),
+    ("SELECT x FROM #o ORDER BY k", None),
+    ("SELECT s, x FROM #t ORDER BY x DESC, s", None),
 ]
 
 
@@ -188,6 +226,7 @@ def connect(ledger_text):
     conn.tables['postings'] = YPostings(entries, options)
     conn.tables['t'] = YTable(*TABLE_T)
     conn.tables['u'] = YTable(*TABLE_U)
+    conn.tables['o'] = YTable(*TABLE_O)
     return conn
 
 
@@ -291,7 +330,8 @@ def prop_exhaustive(sh, case):
     """All schedules of length L for fixed pairs of queries (the rest of the run follows thread order)."""
     fails = []
     pairs = [((0, 0), 'separate'), ((0, 0), 'shared'), ((2, 1), 'separate-ledgers'), ((12, 13), 'shared'), ((16, 17), 'shared'),
-             ((8, 9), 'shared'), ((3, 6), 'separate'), ((21, 21), 'shared'), ((22, 22), 'shared'), ((4, 4), 'shared'), ((23, 24), 'separate')]
+             ((8, 9), 'shared'), ((3, 6), 'separate'), ((21, 21), 'shared'), ((22, 22), 'shared'), ((4, 4), 'shared'), ((23, 24), 'separate'),
+             ((25, 26), 'separate'), ((29, 30), 'shared'), ((31, 32), 'shared'), ((31, 34), 'separate')]
     L = case['length']
     mine = [(p, s) for i, (p, s) in enumerate(pairs) if i % case['of'] == case['index']]
     for (qa, qb), sharing in mine:
@@ -318,8 +358,8 @@ def run(sh):
     if sh.index == 0:
         for sig, detail in prop_module(sh, None):
             sh.fail(sig, detail, None, 'module')
-    case = {'length': 8 if sh.tier == 'quick' else 12, 'index': sh.index % 11, 'of': 11}
-    if sh.index < 11:
+    case = {'length': 8 if sh.tier == 'quick' else 12, 'index': sh.index % 15, 'of': 15}
+    if sh.index < 15:
         for sig, detail in prop_exhaustive(sh, case):
             sh.fail(sig, detail, case, 'exhaustive')
     sh.extra['exhaustive_schedule_prefix_length'] = case['length']
